@@ -6,6 +6,7 @@ import base64
 from typing import Any
 
 from vf.common import Ctx
+from vf import refcodec
 from vf.sim.device import DeviceConfig
 from vf.sim.scenario import Sim
 
@@ -15,7 +16,8 @@ RULE = ("arrival schedules = bitmasks over slots on a K/2 grid shifted by K/8 (s
         "Noise; structured patterns (one message inside the pong window, gaps of 4.5K -/+ K/8, silence after a live phase); thorough enumerates "
         "ALL 2^16 masks over 16 slots for K=1 and K=20. Observed: device-side virtual timestamps of every PingRequest, time and class of the first "
         "fatal error, on_stop time/arg; oracle: 25-line executable model written from the statement, equality within 1 us. Non-trivial = at least "
-        "one ping or a close was predicted and compared; distinct = (K, framing, mask)")
+        "one ping or a close was predicted and compared; distinct = (K, framing, mask)"
+        " Also: the client itself sending commands every 0.3/0.5/0.9 K while the device is silent or sparse, and a device that stops reading (socket blocked, 80/300 KiB queued -> transport back-pressure; pings observed at transport.write): the schedule and the death must be those of the model, which only counts messages FROM the peer.")
 ASSUMPTIONS = [
     "ticks are counted from the instant connect() returned (T0)",
     "exact coincidences of an arrival with a tick are run and recorded only: their order is the loop's, not the library's",
@@ -64,7 +66,8 @@ def model(T0: float, K: float, arrivals: list[float], H: float) -> tuple[list[fl
             tick = tick + K
 
 
-def run_case(K: float, framing: str, offsets: list[tuple[float, str]], horizon_k: float, live_until: float | None = None) -> dict[str, Any]:
+def run_case(K: float, framing: str, offsets: list[tuple[float, str]], horizon_k: float, live_until: float | None = None,
+             client_sends: list[float] | None = None, backpressure: tuple[float, int] | None = None) -> dict[str, Any]:
     """offsets: (seconds after T0, message kind). live_until: device answers pings itself until T0+live_until (then silent)."""
     with Sim() as sim:
         # a live device answers pings itself, K/16 after receiving them (so a pong never coincides with the tick that caused it)
@@ -93,10 +96,32 @@ def run_case(K: float, framing: str, offsets: list[tuple[float, str]], horizon_k
                 conn.send(kind, _delay=off)
         if live_until is not None:
             sim.net.at(T0 + live_until, lambda: setattr(cfg, "answer_ping", False))
+        # what the CLIENT sends is no sign of life of the peer: commands written while the device is silent must not change the schedule
+        for off in client_sends or []:
+            def send_cmd() -> None:
+                try:
+                    cli.switch_command(1, True)
+                except Exception:  # noqa: BLE001  (after the close the gate refuses: fine)
+                    pass
+            sim.at(T0 + off, send_cmd)
+        if backpressure is not None:
+            # the device stops reading: the socket accepts nothing more, the transport's buffer passes its high-water mark (pause_writing)
+            def stall() -> None:
+                conn.sock.send_fault = "block"
+                try:
+                    for _ in range(backpressure[1] // 1024):
+                        cli.send_voice_assistant_audio(b"\x00" * 1024)
+                except Exception:  # noqa: BLE001
+                    pass
+            sim.at(T0 + backpressure[0], stall)
         H = T0 + horizon_k * K
         sim.run(max_time=H)
         v = sim.conns[0]
         pings = [r["t"] for r in conn.received if r["name"] == "PingRequest"]
+        if backpressure is not None:
+            # nothing reaches the device any more: the pings are observed where the client hands them to the transport
+            ping_frame = refcodec.enc_plain(dev.proto.id_of("PingRequest"), b"")
+            pings = [w[1] for t in sim.transports for w in t.sim_writes if w[2] == ping_frame]
         pongs_from_device = [s["t"] + lat for s in conn.sent if s["name"] == "PingResponse"]
         arrivals_seen = [s["t"] for s in conn.sent if s["t"] > T0 - 1e-9 and s["name"] != "HelloResponse"]
         first_fatal = v.fatals[0] if v.fatals else None
@@ -149,9 +174,9 @@ def mask_offsets(K: float, mask: int, nslots: int, rot: int) -> list[tuple[float
 
 
 def one(ctx: Ctx, K: float, framing: str, offsets: list[tuple[float, str]], horizon_k: float, label: str, sig: Any,
-        live_until: float | None = None) -> None:
+        live_until: float | None = None, client_sends: list[float] | None = None, backpressure: tuple[float, int] | None = None) -> None:
     res = ctx.res
-    o = run_case(K, framing, offsets, horizon_k, live_until)
+    o = run_case(K, framing, offsets, horizon_k, live_until, client_sends, backpressure)
     res.evaluations += 1
     if o.get("error") or o["harness_errors"] or o["decode_errors"]:
         res.inconclusive.append(f"{label}: {o.get('error') or o['harness_errors'] or o['decode_errors']}")
@@ -235,6 +260,25 @@ def shard(ctx: Ctx) -> None:
                         f"K={K} {framing}: pings at {[round((t - o['T0']) / K, 3) for t in o.get('pings', [])]} (recorded, not judged)")
                     continue
                 one(ctx, K, framing, offs, hk, "structured/" + label.split("+")[0].split("-at-")[0], ("pat", label), live)
+    # the client's own traffic, and write back-pressure, must not stand in for signs of life of the peer
+    for K in Ks:
+        for framing in ("plain", "noise"):
+            for every in (0.3, 0.5, 0.9):
+                idx += 1
+                if ctx.mine(idx):
+                    sends = [k * every * K + K / 16 for k in range(1, int(12 / every))]
+                    one(ctx, K, framing, [(0.125 * K, "SensorStateResponse")], 10, "client-chatty-device-silent", ("chatty", every), None, client_sends=sends)
+                idx += 1
+                if ctx.mine(idx):
+                    sends = [k * every * K + K / 16 for k in range(1, int(12 / every))]
+                    offs = [((2 * j + 0.125) * K, "SensorStateResponse") for j in range(3)]
+                    one(ctx, K, framing, offs, 16, "client-chatty-device-sparse", ("chatty-sparse", every), None, client_sends=sends)
+        for at in (0.25, 1.6, 3.1):
+            for nbytes in (80 * 1024, 300 * 1024):
+                idx += 1
+                if ctx.mine(idx):
+                    one(ctx, K, "plain", [(0.125 * K, "SensorStateResponse")], 12, "device-stops-reading(back-pressure)", ("bp", at, nbytes), None,
+                        backpressure=(at * K, nbytes))
     # exhaustive 16-slot masks
     if ctx.thorough:
         for K in (1.0, 20.0):
